@@ -49,7 +49,10 @@ PROPOSED_KNOWN = [
          witness="corpus/C05/known.txt#k-alias-leak",
          text="TypeEncoder::instance calls use_aliases on the ENCLOSING scope: the local names of the `use`s of an imported "
               "interface stay in `type_aliases` of the world, and a later world-level type with the same name is encoded as "
-              "an alias of the interface's used type (`import ia2; type t = tuple<..>` with ia2 `use a1.{t}` imports `t` as a1's t)"),
+              "an alias of the interface's used type (`import ia2; type t = tuple<..>` with ia2 `use a1.{t}` imports `t` as a1's t); "
+              "use_aliases also CLEARS the map, so a resource the world itself obtained by `use` and imports after any instance "
+              "import loses its alias: it is encoded as a fresh `(sub resource)` (silently a different type; only the "
+              "validator-level comparison sees it) or, for a resource alias, encode panics `should have owner`"),
     dict(property="C05", id="C05-encoder-alias-of-used-type", status="known", signature="encoder-alias-of-used-type",
          witness="corpus/C05/known.txt#k-alias-used",
          text="`type r = t` where `t` was obtained by `use` and t's definition mentions another named type: the alias is "
@@ -90,8 +93,8 @@ RULES = [
         r"wac encode fails: PANIC in encode: encoding\.rs:\d+ no entry found for key",
         r"WP-DIFF world .*reference<=wac false"]),
     ("encoder-alias-name-leak", "alias-name-leak", [
-        r"REF-DIFF world \S+ (implicit )?import \S+: .*expected .*, found", r"WP-DIFF (world|interface)",
-        r"wac encode fails: ValidationFailure"]),
+        r"REF-DIFF world \S+ (implicit )?import \S+: .*expected .*, found", r"REF-DIFF world \S+ export .*expected ",
+        r"WP-DIFF world", r"wac encode fails: PANIC in encode: encoding\.rs:\d+ should have owner"]),
     ("encoder-alias-of-used-type", "alias-of-used-type", [
         r"wac encode fails: ValidationFailure.*(instance not valid to be used as export|type not valid to be used as import|"
         r"instance not valid to be used as import|component not valid to be used as export)",
@@ -121,7 +124,7 @@ def run_driver(cases_p, model_p, jobs=12):
     procs = []
     for i, ch in enumerate(chunks):
         inp = cases_p + ".%d" % i
-        open(inp, "w").write("".join("\t".join(l.split("\t")[:3]) + "\n" for l in ch))
+        open(inp, "w").write("".join("\t".join(l.split("\t")[:3] + l.split("\t")[5:6]) + "\n" for l in ch))
         procs.append((i, subprocess.Popen(f"{os.path.join(vlib.BUILD, 'c05', 'driver')} < {inp} > {model_p}.{i}", shell=True)))
     for _, p in procs:
         p.wait()
